@@ -857,10 +857,13 @@ def set_order(k: int, A: str, B: str, C: str, rot: int, rev: bool, rg: bool) -> 
     t2, an2 = _prepare(skeletons.TEMPLATES, k, A, B, C)
     if an1.errors:
         return True
-    ref = renamecheck.run_pipeline(t1, True, rg, True)
-    NondetSet.tape = [rot, rev]
     with contextlib.ExitStack() as st:
         for m in ('python_minifier.rename.mapper', 'python_minifier.rename.renamer', 'python_minifier.rename.bind_names'):
             st.enter_context(patched(mod(m), 'set', NondetSet))
+        # reference: insertion order; then the harness-chosen order (both deterministic, so a counterexample replays)
+        NondetSet.tape = [0, False]
+        ref = renamecheck.run_pipeline(t1, True, rg, True)
+        NondetSet.tape = [rot, rev]
         out = renamecheck.run_pipeline(t2, True, rg, True)
+    NondetSet.tape = [0, False]
     return trees_equal(ref, out)
